@@ -67,6 +67,9 @@ def model_class():
             self.log = []
             self.q = 0
             self.stream = MersenneTwister(11 + self.variant)
+            # streams with the valid seeds 0 and False
+            self.zero = MersenneTwister(0)
+            self.falsy = MersenneTwister(False)
             self.ia = DistExponential(self.stream, 0.7)
             self.sv = DistUniform(self.stream, 0.2, 0.9)
             self.cnt = SimCounter("arr", "arrivals", sim)
@@ -125,7 +128,8 @@ def model_class():
         def special(self):
             self.hook("special")
             self.cnt.register(3)
-            self.tal.register(0.125)
+            self.tal.register(0.125 + self.zero.next_float()
+                              + self.falsy.next_float())
 
         def arrive(self):
             self.hook("arrive")
